@@ -128,8 +128,19 @@ def judge_trig(fb, xb, kb, rb, tb):
             d = abs(flt.index(got, f) - flt.index(want, f))
             if d > tol:
                 # how close is x to a multiple of pi/2 (relative)?  used for classification only
-                rel = abs(rem) / abs(xm) if xm != 0 else 1
-                near = "near-multiple-of-pi/2" if rel < m.mpf(2) ** (-(f.p - 4)) else "generic"
+                # the open findings: the remainder is lost when it is tiny.  float16: relative to x (precision-limited for
+                # every large x); float32/float64: in absolute terms (|remainder| < 2^-18 / 2^-40, measured on the unchanged
+                # tree: all known failures lie below, and a relative criterion would be trivially true for every huge x and
+                # hide any other defect of the large-argument path)
+                if fb == 16:
+                    rel = abs(rem) / abs(xm) if xm != 0 else 1
+                    isnear = rel < m.mpf(2) ** (-(f.p - 4))
+                else:
+                    isnear = abs(rem) < m.mpf(2) ** (-{32: 18, 64: 40}[fb])
+                near = "near-multiple-of-pi/2" if isnear else "generic"
+                if fb == 32 and not isnear and abs(xm) >= m.mpf(2) ** 116:
+                    # float32 words cannot hold bits of 2/pi below 2^-149: beyond |x| ~ 2^116 the table is exhausted
+                    near = "two-over-pi-table-exhausted"
                 bad.append(("trig/remainder/%s/f%d" % (near, fb), "x=%r: k=%d r+t=%r, true remainder %s: off by %s ulp (lattice %d), tolerance %d" % (x, int(K), rr + tt, m.nstr(rem, 12), m.nstr(n_ulp, 6), d, tol)))
         return "in", bad, float(n_ulp)
 
